@@ -167,11 +167,13 @@ impl Command {
         let mut tokens_new = tokens.clone();
         let mut redirects_from_type = String::new();
         let mut redirects_from_value = String::new();
-        let mut has_redirect_from = tokens_new.iter().any(|x| x.1 == "<" || x.1 == "<<<");
+        // only unquoted `<` / `<<<` are operators
+        let is_from = |x: &Token, op: &str| x.0.is_empty() && x.1 == op;
+        let mut has_redirect_from = tokens_new.iter().any(|x| is_from(x, "<") || is_from(x, "<<<"));
 
         let mut len = tokens_new.len();
         while has_redirect_from {
-            if let Some(idx) = tokens_new.iter().position(|x| x.1 == "<") {
+            if let Some(idx) = tokens_new.iter().position(|x| is_from(x, "<")) {
                 redirects_from_type = "<".to_string();
                 tokens_new.remove(idx);
                 len -= 1;
@@ -180,7 +182,7 @@ impl Command {
                     len -= 1;
                 }
             }
-            if let Some(idx) = tokens_new.iter().position(|x| x.1 == "<<<") {
+            if let Some(idx) = tokens_new.iter().position(|x| is_from(x, "<<<")) {
                 redirects_from_type = "<<<".to_string();
                 tokens_new.remove(idx);
                 len -= 1;
@@ -190,7 +192,7 @@ impl Command {
                 }
             }
 
-            has_redirect_from = tokens_new.iter().any(|x| x.1 == "<" || x.1 == "<<<");
+            has_redirect_from = tokens_new.iter().any(|x| is_from(x, "<") || is_from(x, "<<<"));
         }
 
         let tokens_final;
@@ -365,7 +367,7 @@ impl CommandLine {
 
         let mut background = false;
         let len = tokens.len();
-        if len > 1 && tokens[len - 1].1 == "&" {
+        if len > 1 && tokens[len - 1].0.is_empty() && tokens[len - 1].1 == "&" {
             background = true;
             tokens.pop();
         }
